@@ -18,7 +18,7 @@ from .c20 import serialise, ZONES, HOST_TZ, DST_EPOCHS
 
 np = sut.np
 ID = "C15"
-RUNS = {"quick": 6000, "thorough": 150000}
+RUNS = {"quick": 30000, "thorough": 150000}
 BUDGET = {"quick": 45, "thorough": 780}
 CHUNK = 300
 DET_EVERY = 200
